@@ -21,8 +21,8 @@ RULE = ('cases = generated single-connection programs mixing modifications, obje
 ASSUMPTIONS = ['objects disowned by a rollback/abort after having been stored in a savepoint are not used again by the program '
                '(the statement promises un-adding, not re-addability; re-adding after abort is C11)',
                'blob writes inside savepoints are exercised in C13']
-BUDGET = {'quick': {'examples': 4000, 'workers': 8},
-          'thorough': {'examples': 25000, 'workers': 16}}
+BUDGET = {'quick': {'examples': 12000, 'workers': 8},
+          'thorough': {'examples': 100000, 'workers': 16}}
 
 
 def blob_strategy(n):
